@@ -28,7 +28,8 @@ E_PLACEMENT == 10  E_SCHED_START == 11  E_SCHED_FIN == 12  E_END == 13  E_LOGUTI
 
 NoSD == [dem |-> <<>>, rt |-> -1, bs |-> 0, bid |-> 0]
 NoPlan == [pool |-> 0, wk |-> 0, sd |-> NoSD, tm |-> -1]
-Ev(ty, tm, t, g, pl) == [ty |-> ty, tm |-> tm, t |-> t, g |-> g, pl |-> pl]
+Ev(ty, tm, t, g, pl) == [ty |-> ty, tm |-> tm, t |-> t, g |-> g, pl |-> pl, pr |-> 0]
+EvP(ty, tm, pr, pl) == [ty |-> ty, tm |-> tm, t |-> 0, g |-> 0, pl |-> pl, pr |-> pr]   \* profile load / evict event
 
 Max2(a, b) == IF a >= b THEN a ELSE b
 Min2(a, b) == IF a <= b THEN a ELSE b
@@ -234,7 +235,14 @@ DoStep(S, size) ==
         fin == SelectSeq(occ, LAMBDA t : res[t][2])
         ts2 == [t \in 1..NT(S) |-> IF t \in Range(occ) THEN res[t][1] ELSE S.ts[t]]
         evs == [i \in 1..Len(fin) |-> Ev(E_FINISHED, S.now + size, fin[i], 0, NoPlan)]
-    IN  [QAddAll([S EXCEPT !.ts = ts2], evs) EXCEPT !.now = S.now + size]
+        \* Worker.step: pending profiles whose remaining loading time elapses become available
+        cl2 == [k \in 1..Len(S.cl) |->
+                 [S.cl[k] EXCEPT
+                    !.pend = [i \in 1..Len(SelectSeq(S.cl[k].pend, LAMBDA x : x[2] - size > 0)) |->
+                                 LET x == SelectSeq(S.cl[k].pend, LAMBDA y : y[2] - size > 0)[i] IN <<x[1], x[2] - size, x[3], x[4]>>],
+                    !.avl = S.cl[k].avl \o [i \in 1..Len(SelectSeq(S.cl[k].pend, LAMBDA x : x[2] - size <= 0)) |->
+                                 LET x == SelectSeq(S.cl[k].pend, LAMBDA y : y[2] - size <= 0)[i] IN <<x[1], 0, x[3], x[4]>>]]]
+    IN  [QAddAll([S EXCEPT !.ts = ts2, !.cl = cl2], evs) EXCEPT !.now = S.now + size]
 
 \* the loop of simulate(): how far to step, and whether an event is popped afterwards
 LoopChoice(S) ==
@@ -406,7 +414,12 @@ ApplyDecs(W, S, decs, evs, err, ncl) ==      \* ncl: number of closed-loop notif
                        THEN (IF d.placed /\ d.tm < S.now
                              THEN [S |-> S, evs |-> <<>>, err |-> "placement_in_past", cl |-> FALSE]
                              ELSE ApplyPlace(W, S, d))
-                  ELSE [S |-> S, evs |-> <<>>, err |-> "profile_placement_not_modelled", cl |-> FALSE]
+                  ELSE IF d.kind \in {1, 2}
+                       THEN (IF d.tm < S.now THEN [S |-> S, evs |-> <<>>, err |-> "placement_in_past", cl |-> FALSE]
+                             ELSE [S |-> S, err |-> "", cl |-> FALSE,
+                                   evs |-> <<EvP(IF d.kind = 1 THEN E_EVICT ELSE E_LOAD, d.tm, d.pr,
+                                                 [pool |-> d.pool, wk |-> d.wk, sd |-> d.sd, tm |-> d.tm])>>])
+                  ELSE [S |-> S, evs |-> <<>>, err |-> "unknown_placement_type", cl |-> FALSE]
          IN  ApplyDecs(W, r.S, Tail(decs), evs \o r.evs, r.err, ncl + (IF r.cl THEN 1 ELSE 0))
 
 (* __get_next_scheduler_event.  `offered` = result of get_schedulable_tasks at this  *)
@@ -432,7 +445,13 @@ NextSchedulerEvent(W, S, offered) ==
         allBusy == \A i \in 1..Len(offered) : S.ts[offered[i]].st \in {RUNNING, SCHEDULED}
         \* no worker has the task's profile *loaded* unless the policy loads profiles; the
         \* generator over (task, worker) pairs with a loaded profile is then empty -> all() = TRUE
-        noCompat == TRUE
+        \* all(no compatible strategy) over (offered task, worker on which the task's profile is available): with no
+        \* profile loaded anywhere the generator is empty and all() is TRUE
+        ProfAvail(k, p) == (\E i \in 1..Len(S.cl[k].avl) : S.cl[k].avl[i][1] = p)
+                           \/ (\E i \in 1..Len(S.cl[k].pend) : S.cl[k].pend[i][1] = p /\ S.cl[k].pend[i][2] = 0)
+        noCompat == \A i \in 1..Len(offered) : \A k \in 1..Len(S.cl) :
+                        ProfAvail(k, S.tk[offered[i]].prof) =>
+                            ~\E j \in 1..Len(S.tk[offered[i]].strats) : CanAcc(W, S, k, S.tk[offered[i]].strats[j])
         nextEv == Min2(minRun, Min2(nr, nu))
         adjusted == Max2(start0, nextEv)
         EndAt(tm) == Ev(E_END, tm, 0, 0, NoPlan)
@@ -484,6 +503,37 @@ HUpdateWorkload(W, S, B) ==
         nxt == IF W.fl.update_interval = -1 THEN Max2(maxRel, S.now) + 1 ELSE S.now + W.fl.update_interval
     IN  Ok(QAddAll(S1, gev \o rev \o <<Ev(E_UPDATE, nxt, 0, 0, NoPlan)>>))
 
+\* LOAD_PROFILE / EVICT_PROFILE: WorkerPool.load_profile / evict_profile on one worker or on every worker of the pool
+ProfWorkers(S, pl) == IF pl.wk # 0 THEN <<WIdx(S, pl.pool, pl.wk)>> ELSE PoolWorkers(S, pl.pool)
+HasProf(S, k, p) == (\E i \in 1..Len(S.cl[k].pend) : S.cl[k].pend[i][1] = p) \/ (\E i \in 1..Len(S.cl[k].avl) : S.cl[k].avl[i][1] = p)
+RECURSIVE LoadOn(_, _, _, _, _)
+LoadOn(W, S, ks, p, sd) ==        \* returns [S, err]
+    IF ks = <<>> THEN Ok(S)
+    ELSE LET k == Head(ks)
+             L0 == [av |-> S.cl[k].av, al |-> [c \in {"n"} |-> <<>>]]
+         IN  IF ~CanAllocMulti(Insts(W, S, k), L0, sd.dem) THEN Err(S, "load_profile_does_not_fit")
+             ELSE LET L1 == MultiAlloc(Insts(W, S, k), L0, sd.dem, "n", 1)
+                      others == SelectSeq(S.cl[k].pend, LAMBDA x : x[1] # p)
+                      S1 == [S EXCEPT !.cl[k].av = L1.av, !.cl[k].pend = Append(others, <<p, sd.rt, sd.dem, L1.al["n"]>>)]
+                  IN  LoadOn(W, S1, Tail(ks), p, sd)
+HLoadProfile(W, S, e) == LoadOn(W, S, ProfWorkers(S, e.pl), e.pr, e.pl.sd)
+
+RECURSIVE EvictOn(_, _, _)
+EvictOn(S, ks, p) ==
+    IF ks = <<>> THEN Ok(S)
+    ELSE LET k == Head(ks) IN
+         IF ~HasProf(S, k, p) THEN Err(S, "evict_profile_absent")
+         ELSE LET inAvl == \E i \in 1..Len(S.cl[k].avl) : S.cl[k].avl[i][1] = p
+                  ent == IF inAvl THEN S.cl[k].avl[CHOOSE i \in 1..Len(S.cl[k].avl) : S.cl[k].avl[i][1] = p]
+                         ELSE S.cl[k].pend[CHOOSE i \in 1..Len(S.cl[k].pend) : S.cl[k].pend[i][1] = p]
+                  RECURSIVE GiveP(_, _)
+                  GiveP(av, n) == IF n > Len(ent[4]) THEN av ELSE GiveP([av EXCEPT ![ent[4][n][1]] = @ + ent[4][n][2]], n + 1)
+                  S1 == [S EXCEPT !.cl[k].av = GiveP(@, 1),
+                                  !.cl[k].avl = IF inAvl THEN SelectSeq(@, LAMBDA x : x[1] # p) ELSE @,
+                                  !.cl[k].pend = IF inAvl THEN @ ELSE SelectSeq(@, LAMBDA x : x[1] # p)]
+              IN  EvictOn(S1, Tail(ks), p)
+HEvictProfile(W, S, e) == EvictOn(S, ProfWorkers(S, e.pl), e.pr)
+
 \* TASK_PREEMPT: remove the task from its pool, Task.preempt
 HTaskPreempt(W, S, t) ==
     LET k == WorkerOf(S, t) IN
@@ -517,6 +567,8 @@ Handle(W, S, e, B) ==
       [] e.ty = E_RELEASE    -> HTaskRelease(W, S, e.t)
       [] e.ty = E_UPDATE     -> HUpdateWorkload(W, S, B)
       [] e.ty = E_PLACEMENT  -> HTaskPlacement(W, S, e, B)
+      [] e.ty = E_LOAD       -> HLoadProfile(W, S, e)
+      [] e.ty = E_EVICT      -> HEvictProfile(W, S, e)
       [] e.ty = E_PREEMPT    -> HTaskPreempt(W, S, e.t)
       [] e.ty = E_MIGRATE    -> HTaskMigration(W, S, e)
       [] e.ty = E_SCHED_START -> HSchedStart(W, S, B)
@@ -531,8 +583,11 @@ Handle(W, S, e, B) ==
 DemQ(sd, n) == SumTo([j \in 1..Len(sd.dem) |-> IF sd.dem[j].name = n THEN sd.dem[j].q ELSE 0], Len(sd.dem))
 OccCounts(S, k, i) ==      \* occupant i counts unless an earlier occupant shares its batch
     ~(S.cl[k].occ[i].sd.bid # 0 /\ \E j \in 1..(i - 1) : S.cl[k].occ[j].sd.bid = S.cl[k].occ[i].sd.bid)
+ProfQ(x, n) == SumTo([j \in 1..Len(x[3]) |-> IF x[3][j].name = n THEN x[3][j].q ELSE 0], Len(x[3]))
 WDemand(S, k, n) ==
     SumTo([i \in 1..Len(S.cl[k].occ) |-> IF OccCounts(S, k, i) THEN DemQ(S.cl[k].occ[i].sd, n) ELSE 0], Len(S.cl[k].occ))
+    + SumTo([i \in 1..Len(S.cl[k].pend) |-> ProfQ(S.cl[k].pend[i], n)], Len(S.cl[k].pend))
+    + SumTo([i \in 1..Len(S.cl[k].avl) |-> ProfQ(S.cl[k].avl[i], n)], Len(S.cl[k].avl))
 WNames(W, S, k) == {Insts(W, S, k)[i].name : i \in 1..Len(Insts(W, S, k))}
 CapQ(W, S, k, n) == TotalQ(Insts(W, S, k), [name |-> n, id |-> "any"])
 AvQ(W, S, k, n) == AvailQ(Insts(W, S, k), S.cl[k].av, [name |-> n, id |-> "any"])
@@ -542,7 +597,7 @@ C01_LedgerAgrees(W, S) == \A k \in 1..Len(S.cl) : \A n \in WNames(W, S, k) : AvQ
 C01_SingleWorker(S) == \A t \in 1..NT(S) : Cardinality({k \in 1..Len(S.cl) : \E i \in 1..Len(S.cl[k].occ) : S.cl[k].occ[i].t = t}) <= 1
 C01_AvRange(W, S) == \A k \in 1..Len(S.cl) : \A i \in 1..Len(S.cl[k].av) : S.cl[k].av[i] >= 0 /\ S.cl[k].av[i] <= Insts(W, S, k)[i].cap
 \* C04 (simulation part): no occupant => worker back at full capacity
-C04_IdleMeansFull(W, S) == \A k \in 1..Len(S.cl) : S.cl[k].occ = <<>> => \A i \in 1..Len(S.cl[k].av) : S.cl[k].av[i] = Insts(W, S, k)[i].cap
+C04_IdleMeansFull(W, S) == \A k \in 1..Len(S.cl) : (S.cl[k].occ = <<>> /\ S.cl[k].pend = <<>> /\ S.cl[k].avl = <<>>) => \A i \in 1..Len(S.cl[k].av) : S.cl[k].av[i] = Insts(W, S, k)[i].cap
 \* C02: a running / finished task started after its release and after its predecessors
 C02_StartedProperly(S) ==
     \A t \in 1..NT(S) : S.ts[t].st \in {RUNNING, COMPLETED} =>
@@ -724,8 +779,8 @@ DecRows(W, S, decs, now) ==
     ELSE LET d == Head(decs)
              r == IF d.kind = 3 THEN ApplySkip(W, S, d, TRUE)
                   ELSE IF d.kind = 4 THEN ApplyPlace(W, S, d)
-                  ELSE [S |-> S, evs |-> <<>>, err |-> "x", cl |-> FALSE]
-             st == S.ts[d.t].st
+                  ELSE [S |-> S, evs |-> <<>>, err |-> "", cl |-> FALSE]     \* profile load / evict: no row
+             st == IF d.t = 0 THEN 0 ELSE S.ts[d.t].st
              sched == IF d.kind = 4 /\ d.placed
                       THEN <<Row("TASK_SCHEDULED", <<now, d.t, 1, S.ts[d.t].dl, d.tm, d.pool, d.sd.rt>>, <<>>)>> ELSE <<>>
              skip == IF d.kind = 4 /\ ~d.placed /\ st <= SCHEDULED /\ ~W.fl.drop_skipped
